@@ -127,13 +127,18 @@ def gens_json(gens):
 
 
 class Proj:
-    """Orthogonal projector onto the real span of a list of matrices."""
+    """Orthogonal projector onto the real span of a list of matrices, with a residual tolerance that accounts for the conditioning
+    of the given (column-normalised) basis: directions are only defined up to ~eps / sigma_min."""
 
-    def __init__(self, L, mats):
+    def __init__(self, L, mats, loose=1.0):
         A = L.colmat(mats)
+        self.tol = RES * loose
         if A.size:
-            Q, R = np.linalg.qr(A)
-            self.Q = Q
+            U, s, _ = np.linalg.svd(A, full_matrices=False)   # rank revealing: the list may be linearly dependent
+            keep = s > 1e-9 * s[0] if s[0] > 0 else np.zeros(len(s), dtype=bool)
+            self.Q = U[:, keep]
+            smin = (s[keep][-1] / s[0]) if keep.any() else 1.0
+            self.tol = max(RES * loose, 1e-12 / max(smin, 1e-12))
         else:
             self.Q = np.zeros((0, 0))
 
@@ -145,6 +150,14 @@ class Proj:
         if self.Q.size == 0:
             return 1.0
         return float(np.linalg.norm(x - self.Q @ (self.Q.T @ x)) / nx)
+
+    def outside(self, L, X):
+        return self.resid(L, X) > self.tol
+
+
+def negligible(C, A, B):
+    """commutator that is rounding noise relative to its factors (exactly commuting elements)."""
+    return float(np.linalg.norm(C)) <= 1e-7 * float(np.linalg.norm(A)) * float(np.linalg.norm(B))
 
 
 def run(ctx):
@@ -222,7 +235,9 @@ def run(ctx):
                 inp = [np.array(m) for m in gd]
                 out = qp.lie_closure(inp, matrix=True)
         except Exception as e:  # noqa: BLE001
-            ctx.violation("closure.closed", f"lie_closure raised {type(e).__name__}: {e}", case=info, mech=f"raise:lie_closure:{form}")
+            spurious = form.startswith("matrix") and "not (skew-)Hermitian" in str(e)
+            ctx.violation("closure.closed", f"lie_closure raised {type(e).__name__}: {str(e)[:200]}", case=info,
+                          mech="lie_closure:matrix:noise-accepted-as-basis-element" if spurious else f"raise:lie_closure:{form}")
             return
         try:
             B = [dense_of(o, order) for o in out]
@@ -242,10 +257,11 @@ def run(ctx):
         except L.Ambiguous as e:
             ctx.inconclusive_case(f"closure rank ambiguous: {e}")
             return
-        PB = Proj(L, B)
+        loose = 100.0 if form.startswith("matrix") else 1.0   # matrix mode is iterative numerics (Gram-Schmidt): stated bound 1e-6
+        PB = Proj(L, B, loose)
         ctx.ev("closure.spans")
         for gidx, g in enumerate(gd):
-            if PB.resid(L, g) > RES:
+            if PB.outside(L, g):
                 ctx.violation("closure.spans", f"generator {gidx} is not in the span of the closure (residual {PB.resid(L, g):.2e})", case=info,
                               mech=f"span:{form}")
                 return
@@ -253,13 +269,13 @@ def run(ctx):
         for a in range(d):
             for b in range(a + 1, d):
                 C = L.hcomm(B[a], B[b])
-                if np.max(np.abs(C)) > 1e-12 and PB.resid(L, C) > RES:
+                if not negligible(C, B[a], B[b]) and PB.outside(L, C):
                     ctx.violation("closure.closed", f"[B{a}, B{b}] is not in the span of the closure (dim {d}, reference dim {d_ref})", case=info,
                                   mech=f"not-closed:{form}")
                     return
         ctx.ev("closure.minimal")
-        PR = Proj(L, ref)
-        if d != d_ref or any(PR.resid(L, b) > RES for b in B):
+        PR = Proj(L, ref, loose)
+        if d != d_ref or any(PR.outside(L, b) for b in B):
             ctx.violation("closure.minimal", f"closure has dimension {d}, the Lie algebra generated has dimension {d_ref}", case=info,
                           mech=f"dim:{form}")
             return
@@ -386,7 +402,7 @@ def run(ctx):
         ctx.ev("center.commutes")
         PB = Proj(L, B)
         for k, c in enumerate(Cd):
-            if PB.resid(L, c) > RES:
+            if PB.outside(L, c):
                 ctx.violation("center.commutes", f"center element {k} is not in g", case=info, mech=f"center-outside:{form}")
                 return
             for j in range(d):
@@ -485,7 +501,7 @@ def run(ctx):
             for x in A_:
                 for y in B_:
                     C = L.hcomm(x, y)
-                    if np.max(np.abs(C)) > 1e-12 and P_.resid(L, C) > RES:
+                    if not negligible(C, x, y) and P_.outside(L, C):
                         ctx.violation("cartan.relations", f"{nm} violated for involution {name}", case=cinfo, mech=f"cartan-rel:{name}")
                         return
         if len(k) and len(m) and d <= 30:
@@ -527,7 +543,7 @@ def run(ctx):
                 ctx.violation("csa.maxabelian", f"CSA has {len(ad)} elements of rank {ra}", case=hinfo, mech="csa-dependent")
                 return
             for x in ad:
-                if Pm.resid(L, x) > RES:
+                if Pm.resid(L, x) > max(Pm.tol, 1e-7):
                     ctx.violation("csa.maxabelian", "CSA element is not in m", case=hinfo, mech="csa-outside-m")
                     return
             for i in range(len(ad)):
@@ -549,10 +565,10 @@ def run(ctx):
                               case=hinfo, mech="csa-not-maximal")
                 return
             # newg = k + mtilde + a spans g ; mtilde + a spans m
-            if len(ng) != d or L.rank(ng) != d or any(Proj(L, B).resid(L, x) > RES for x in ng):
+            if len(ng) != d or L.rank(ng) != d or any(Proj(L, B).resid(L, x) > 1e-7 for x in ng):
                 ctx.violation("csa.maxabelian", "newg is not a basis of g", case=hinfo, mech="csa-newg")
                 return
-            if len(mtd) + len(ad) != len(md) or L.rank(mtd + ad) != len(md) or any(Pm.resid(L, x) > RES for x in mtd):
+            if len(mtd) + len(ad) != len(md) or L.rank(mtd + ad) != len(md) or any(Pm.resid(L, x) > 1e-7 for x in mtd):
                 ctx.violation("csa.maxabelian", "mtilde + a is not a basis of m", case=hinfo, mech="csa-mtilde")
                 return
         except L.Ambiguous as e:
@@ -608,7 +624,7 @@ def run(ctx):
                 rk = L.rank(cur)
                 ctx.ev("vspace.rank")
                 bd = [dense_of(b, order) for b in vs.basis]
-                if len(bd) != rk or L.rank(bd) != rk or any(Proj(L, cur).resid(L, b) > RES for b in bd):
+                if len(bd) != rk or L.rank(bd) != rk or any(Proj(L, cur).outside(L, b) for b in bd):
                     ctx.violation("vspace.rank", f"PauliVSpace basis has {len(bd)} elements; the exact rank of what was added is {rk}",
                                   case={**info, "history": hist}, mech="vspace-rank")
                     return
@@ -629,8 +645,20 @@ def run(ctx):
                     if not cand:
                         cand = rand_sent()
                 cd = L.sentence_dense(cand, n)
-                new_rk = L.rank(cur + [cd])
-                want = new_rk > rk
+                # distance of the candidate from the span of what was added so far, and conditioning of the current basis:
+                # PennyLane's criterion is s_min(normalised [basis | cand]) > 100 eps; only assert clearly outside the grey zone
+                Pc = Proj(L, cur)
+                rel = Pc.resid(L, cd) if cur else 1.0
+                Ab = L.colmat(bd)
+                sb = np.linalg.svd(Ab, compute_uv=False) if Ab.size else np.ones(1)
+                smin_b = float(sb[-1] / sb[0]) if sb.size and sb[0] > 0 else 1.0
+                if rel < 2e-15:
+                    want = False
+                elif rel * smin_b > 1e-10:
+                    want = True
+                else:
+                    ctx.count("vspace.grey_zone_candidates")
+                    break
                 dependent_seen = dependent_seen or not want
                 hist.append({"cand": gens_json([cand])[0], "independent": want})
                 ctx.ev("vspace.rank")
